@@ -45,6 +45,7 @@ pub fn check_value(v: &Value, text: Option<&str>, bytes: Option<&[u8]>, label: &
 
 pub fn check_one(label: &str) -> Option<Witness> {
     // label: "str:<text>" | "char:<c>" | "bytes:<hex>"
+    if let Some(s) = label.strip_prefix("schema:") { return check_schema(s); }
     if let Some(s) = label.strip_prefix("str:") { return check_value(&Value::from(s), Some(s), None, label); }
     if let Some(s) = label.strip_prefix("char:") { let c = s.chars().next()?; return check_value(&Value::from(c), Some(&c.to_string()), None, label); }
     if let Some(h) = label.strip_prefix("bytes:") {
@@ -54,9 +55,56 @@ pub fn check_one(label: &str) -> Option<Witness> {
     None
 }
 
+/// schema positions: DEFAULT, COMMENT, ENUM labels, CREATE / ALTER TYPE labels - the statement text must contain a literal
+/// token (for that engine) that decodes to the value
+fn literals(sql: &str, name: &str) -> Vec<String> {
+    let t: Vec<char> = sql.chars().collect();
+    let (mut i, mut out) = (0, vec![]);
+    while i < t.len() {
+        let c = t[i];
+        if c == '"' || c == '`' { let q = c; i += 1; while i < t.len() && t[i] != q { i += 1; } i += 1; continue; }
+        let start = if c == '\'' { Some(i) } else if c == 'E' && t.get(i + 1) == Some(&'\'') && (i == 0 || !t[i - 1].is_alphanumeric()) { Some(i) } else { None };
+        if let Some(st) = start {
+            let r = match name { "mysql" => mysql_string_lit(&t[st..]), "postgres" => pg_string_lit(&t[st..]), _ => sqlite_string_lit(&t[st..]) };
+            match r { Some((v, n)) => { out.push(v); i = st + n; } None => { out.push("<unterminated literal>".into()); break; } }
+            continue;
+        }
+        i += 1;
+    }
+    out
+}
+pub fn check_schema(s: &str) -> Option<Witness> {
+    use sea_query::*;
+    let a = |x: &str| Alias::new(x);
+    let mut cases: Vec<(&str, &str, String)> = vec![];
+    let t1 = Table::create().table(a("t")).col(ColumnDef::new(a("c")).string().default(s)).to_owned();
+    cases.push(("column DEFAULT", "mysql", t1.to_string(MysqlQueryBuilder))); cases.push(("column DEFAULT", "postgres", t1.to_string(PostgresQueryBuilder))); cases.push(("column DEFAULT", "sqlite", t1.to_string(SqliteQueryBuilder)));
+    let t2 = Table::create().table(a("t")).col(ColumnDef::new(a("c")).integer().comment(s)).comment(s).to_owned();
+    cases.push(("column / table COMMENT", "mysql", t2.to_string(MysqlQueryBuilder)));
+    let t3 = Table::create().table(a("t")).col(ColumnDef::new(a("c")).enumeration(a("e"), [a(s), a("other")])).to_owned();
+    cases.push(("ENUM label", "mysql", t3.to_string(MysqlQueryBuilder)));
+    let ty = extension::postgres::Type::create().as_enum(a("e")).values([a(s), a("other")]).to_owned();
+    cases.push(("CREATE TYPE label", "postgres", ty.to_string(PostgresQueryBuilder)));
+    let ta = extension::postgres::Type::alter().name(a("e")).add_value(a(s)).to_owned();
+    cases.push(("ALTER TYPE ADD VALUE", "postgres", ta.to_string(PostgresQueryBuilder)));
+    let q = Query::select().column(a("c")).from(a("t")).and_where(Expr::col(a("c")).like(LikeExpr::new(s).escape('!'))).order_by(a("c"), Order::Field(Values(vec![s.into()]))).to_owned();
+    cases.push(("LIKE pattern / ORDER BY FIELD", "mysql", q.to_string(MysqlQueryBuilder))); cases.push(("LIKE pattern / ORDER BY FIELD", "postgres", q.to_string(PostgresQueryBuilder))); cases.push(("LIKE pattern / ORDER BY FIELD", "sqlite", q.to_string(SqliteQueryBuilder)));
+    for (pos, name, sql) in cases {
+        if name != "mysql" && s.contains('\0') { continue; }
+        let lits = literals(&sql, name);
+        if !lits.iter().any(|l| l == s) {
+            return Some(Witness { property: "C03", input: format!("schema:{s}"), observed: format!("{pos} [{name}]: {sql}  -- literals decode to {lits:?}"), expected: format!("a literal decoding to {s:?}") });
+        }
+    }
+    None
+}
+
 pub fn search(_obl: &str) -> Vec<Witness> {
     std::panic::set_hook(Box::new(|_| {}));
     let mut found: Vec<Witness> = vec![];
+    for s in ["it's", "a\\b", "x'); DROP TABLE t; --", "q\"q", "tab\there", "é'"] {
+        if let Ok(Some(w)) = std::panic::catch_unwind(|| check_schema(s)) { found.push(w); }
+    }
     for &c in ALPHA { if let Some(w) = check_one(&format!("char:{c}")) { found.push(w); } }
     for u in [0x80u32, 0xe9, 0xff, 0x100, 0x141, 0x1F600] { if let Some(c) = char::from_u32(u) { if let Some(w) = check_one(&format!("char:{c}")) { found.push(w); } } }
     crate::util::strings(ALPHA, 3, |s| { if let Some(w) = check_one(&format!("str:{s}")) { found.push(w); } found.len() >= 12 });
